@@ -35,6 +35,7 @@ EvMatch(e, m) ==
     [] e.e = "Bg" -> /\ m.r = e.r
                      /\ IF e.d # 0 THEN m.e = "BgDialStart" /\ m.d = e.d ELSE m.e \in {"BgDone", "BgFail"}
     [] e.e = "Tick" -> m.e = "Tick"
+    [] e.e = "SmallTick" -> m.e = "SmallTick"
     [] e.e = "DropPool" -> m.e = "DropPool"
     [] OTHER -> FALSE
 
